@@ -94,16 +94,18 @@ def findEnumMember (a : Ast) (member : String) : Option Nat :=
   | _ => none
 
 /-- the number a case label denotes -/
+def constLabelValue (a : Ast) (l : String) : Option Nat :=
+  match bget l a.constants with
+  | some (.constValue t) => parseDecOrHex t
+  | some (.enumValue _ _) => findEnumMember a l
+  | none => none
+
 def labelValue (a : Ast) (l : String) : Option Nat :=
   if l == "TRUE" then some 1
   else if l == "FALSE" then some 0
   else match parseDecOrHex l with
     | some n => some n
-    | none =>
-      (match bget l a.constants with
-       | some (.constValue t) => parseDecOrHex t
-       | some (.enumValue _ _) => findEnumMember a l
-       | none => none)
+    | none => constLabelValue a l
 
 def boundValue (a : Ast) : ArraySize → Option Nat
   | .known n => some n
